@@ -272,8 +272,8 @@ class FindLocalPeaks(_PeakBase):
     props = ("C06", "C12", "C03")
     # "integralP": any map (rows/indices/values unchanged by refinement);
     # "integralP+": maps without negative/NaN cells and threshold >= 0 (the bound on the move)
-    cases = ("none", "integral5", "integral5+")
-    thorough_cases = ("none", "integral1", "integral1+", "integral3", "integral3+", "integral5", "integral5+", "integral7", "integral7+")
+    cases = ("none", "integral5", "integral5+", "integral4+")
+    thorough_cases = ("none", "integral1", "integral1+", "integral3", "integral3+", "integral5", "integral5+", "integral7", "integral7+", "integral2+", "integral4+", "integral6+")
     bounded = ("integral refinement is unrolled for the listed odd patch sizes (quick: 5; thorough: 1,3,5,7)",)
     not_decided = ("integral refinement on maps with a one-pixel side (outside the trusted kornia crop contract); refined coordinates on maps containing NaN cells",)
 
@@ -297,7 +297,7 @@ class FindLocalPeaks(_PeakBase):
     def requires(self, c, cms, threshold=0.2, refinement=None, integral_patch_size=5):
         ok = self._requires(cms, threshold)
         if refinement == "integral":
-            ok.append(("odd-patch", isinstance(integral_patch_size, int) and integral_patch_size % 2 == 1))
+            ok.append(("int-patch", isinstance(integral_patch_size, int) and integral_patch_size >= 1))
             # domain of the trusted kornia crop contract: no one-pixel-high/wide maps
             ok.append(("map-at-least-2x2", V.b_and(V.i_le(2, cms.shape[2]), V.i_le(2, cms.shape[3]))))
         return ok
